@@ -147,12 +147,16 @@ def gen_workload(rng, mode):
                 ask = {'op': 'call', 'entry': rng.choice(['select', 'select', 'iselect', 'filter', 'match', 'closest']),
                        'key': len(keys) - 1, 'doc': s, 'target': -1 if rng.random() < 0.7 else edits[-1][1],
                        'form': rng.choice(['module', 'compiled', 'precompiled', 'bs4']), 'limit': 0}
+                if edits[-1][0] == 'detach':
+                    # asked about the subtree while it is part of the document, and again once it stands alone
+                    edits = edits[-1:]
+                    ask['target'] = ['inner', edits[-1][1]]
                 history.append(dict(ask))
                 calls.append(len(history) - 1)
             for e in edits:
                 history.append({'op': 'edit', 'doc': s, 'edit': e})
             if ask is not None:
-                history.append(dict(ask, o2=True))
+                history.append(dict(ask, o2=True, target=-1) if edits[-1][0] == 'detach' else dict(ask, o2=True))
             prev = [c for c in calls if history[c].get('doc') == s]
             if prev and rng.random() < 0.6:
                 op = dict(history[rng.choice(prev)])
@@ -312,7 +316,8 @@ def _call_key(op, slot_spec):
     ik = None
     if items is not None:
         ik = tuple((dd if dd < 0 else ('s', dd % len(slot_spec), _st(slot_spec[dd % len(slot_spec)])), tt) for dd, tt in items)
-    return (op.get('entry', 'select'), op['key'], op['doc'], _st(slot_spec[op['doc']]), op.get('target', -1),
+    t = op.get('target', -1)
+    return (op.get('entry', 'select'), op['key'], op['doc'], _st(slot_spec[op['doc']]), tuple(t) if isinstance(t, list) else t,
             op.get('limit', 0), op.get('form', 'module'), ik)
 
 
@@ -617,7 +622,7 @@ def execute(sv, w, o2_seed=0, o2_rate=0.35, pristine_checks=2):
                     g['dead'] = True
                     g['it'] = None
             check_doc(s, i, 'before-edit')
-            changed = gen.apply_edit(ctx.docs[s], op['edit'])
+            ctx.docs[s], changed = gen.apply_edit(ctx.docs[s], op['edit'])
             ctx.els[s], ctx.idx[s] = fp.index_doc(ctx.docs[s])
             live.fps[s] = fp.doc_fingerprint(ctx.docs[s])
             probe('fault:tree-edit' if changed else 'tree_edit_noop')
@@ -874,7 +879,7 @@ def plan(tier):
     # systematic single-fault sweep: an exception at every step of one query (36 selector x document pairs incl. a
     # detached fragment and an XML tree), then the same question again and a whole-document select checked element by
     # element; the thorough tier covers every step, the quick tier every ~8th
-    cfgs.append({'name': 'faultsweep-k500', 'mode': 'faultsweep', 'bound': 500, 'chunk': 9,
+    cfgs.append({'name': 'faultsweep-k500', 'mode': 'faultsweep', 'bound': 500, 'chunk': 9, 'priority': True, 'det_runs': 2,
                  'nruns': 36 * 5 if tier != 'thorough' else 36 * 105})
     return {'budget_s': budget, 'configs': cfgs, 'minimise_budget': 400}
 
